@@ -187,6 +187,98 @@ fn check_stream_ex(name: &str, pkts: &[Vec<u8>], chunking: Chunking, budget: u32
     }
 }
 
+/// A single read of the transport fails with an I/O error (Interrupted, WouldBlock, TimedOut, Other)
+/// after exactly `at` bytes, for every `at`; the reads after it deliver data again. Whatever the
+/// reader does about the error, every packet it returns must be the packet at that position of the
+/// stream, consumed exactly to its end: an error may surface, a different packet may not, and the
+/// reader must not wait for bytes beyond the stream.
+fn check_transient(name: &str, pkts: &[Vec<u8>], budget: u32, acc: &mut Acc) {
+    use std::io::ErrorKind::*;
+    let stream: Vec<u8> = pkts.concat();
+    let mut ends = vec![];
+    let mut e = 0;
+    for p in pkts {
+        e += p.len();
+        ends.push(e);
+    }
+    for at in 0..stream.len() {
+        for kind in [Interrupted, WouldBlock, TimedOut, Other] {
+            let st = dbx::explore(budget, 50_000_000, |ctx| {
+                let sh: Sh = Rc::new(RefCell::new(std::mem::replace(ctx, Ctx::new(vec![], vec![], 0))));
+                let s = Scripted::new(sh.clone(), stream.clone(), Chunking::Deviations);
+                s.st.borrow_mut().transient_error_at = Some((at, kind));
+                watch_describe(|| format!("read_packet on the stream {} with a read failing with {kind:?} after {at} bytes", hex_short(&stream)));
+                let mut results: Vec<Result<String, String>> = vec![];
+                let mut consumed = vec![];
+                let mut blocked = false;
+                {
+                    let mut tr = PacketTransport { source: s.clone() };
+                    for _ in 0..pkts.len() {
+                        let r = guarded(|| {
+                            let mut fut = Box::pin(tr.read_packet::<Resp>());
+                            match drive(fut.as_mut()) {
+                                Driven::Done(Ok(p)) => Some(Ok(format!("{p:?}"))),
+                                Driven::Done(Err(e)) => Some(Err(format!("{e:?}"))),
+                                Driven::Blocked => None,
+                            }
+                        });
+                        match r {
+                            Err(p) => {
+                                results.push(Err(format!("PANIC: {p}")));
+                                consumed.push(s.consumed());
+                                break;
+                            }
+                            Ok(None) => {
+                                blocked = true;
+                                break;
+                            }
+                            Ok(Some(x)) => {
+                                let failed = x.is_err();
+                                results.push(x);
+                                consumed.push(s.consumed());
+                                if failed {
+                                    break;
+                                }
+                            }
+                        }
+                    }
+                }
+                drop(s);
+                *ctx = Rc::try_unwrap(sh).ok().expect("stream still holds the context").into_inner();
+                acc.count("executions", 1);
+                acc.count("transient_error_executions", 1);
+                let mut problems = vec![];
+                for (i, r) in results.iter().enumerate() {
+                    match r {
+                        Ok(d) => {
+                            if *d != expect_debug(&pkts[i]) {
+                                problems.push(format!("packet {i}: expected {} got {}", expect_debug(&pkts[i]), d.chars().take(120).collect::<String>()));
+                            } else if consumed[i] != ends[i] {
+                                problems.push(format!("after packet {i} the reader had consumed {} bytes, the packet ends at {}", consumed[i], ends[i]));
+                            }
+                        }
+                        Err(e) if e.starts_with("PANIC") => problems.push(format!("packet {i}: {e}")),
+                        Err(_) => acc.count("transient_errors_surfaced", 1),
+                    }
+                }
+                if blocked {
+                    problems.push("the reader waits for bytes beyond the end of the data although the stream only failed one read".into());
+                }
+                acc.set("outcomes", h64(&(name, at, format!("{kind:?}"), &results)));
+                if !problems.is_empty() {
+                    let choices = ctx.choices();
+                    acc.violation(viol(
+                        format!("c04/transient/{name}/at={at}/kind={kind:?}/choices={choices:?}"),
+                        format!("stream {name} ({} bytes: {}), one read fails with {kind:?} after {at} bytes, read-split choices {choices:?}\n{}", stream.len(), hex_short(&stream), problems.join("\n")),
+                        ctx.deviations as u64 * 1000 + stream.len() as u64,
+                    ));
+                }
+            });
+            acc.count("transitions", st.transitions);
+        }
+    }
+}
+
 /// The two acknowledged forms of the transport. `write_packet_with_ack` writes a command and reads
 /// the three bytes of the acknowledgement; `read_packet_with_ack` reads one packet and writes the
 /// acknowledgement. Stream = `first` + `second`; the end of the stream (or a reset) is placed at
@@ -577,6 +669,10 @@ pub fn run(run: &RunInfo) -> Summary {
             } else {
                 check_stream(&name, &pkts, Chunking::Deviations, 1, false, acc);
             }
+            // one failing read at every byte offset
+            if seq.len() <= 2 && total <= 300 {
+                check_transient(&name, &pkts, if seq.len() == 1 || thorough { 1 } else { 0 }, acc);
+            }
             // end of stream at every byte offset (default chunking, plus one deviation for short ones)
             if seq.len() <= 2 || thorough {
                 check_stream(&name, &pkts, Chunking::Deviations, if total <= 300 { 1 } else { 0 }, true, acc);
@@ -623,7 +719,7 @@ pub fn run(run: &RunInfo) -> Summary {
         transitions: acc.get("transitions") + acc.get("header_cases"),
         traces_validated: execs,
         distinct_nontrivial: acc.set_len("outcomes") + acc.get("header_agreed"),
-        rule: format!("all sequences of k<=3 packets over a 9-packet alphabet (empty body, 1-2 byte bodies, bodies of 253/254/255/256/300 bytes): for streams of <=12 (thorough: 16) bytes every partition into read() results with a Pending+wake before any subset of polls; for longer streams every placement of <= {budget} deviations (1-byte, half, all-but-one read, Pending); end of stream, and a connection reset, at every byte offset; the acknowledged forms write_packet_with_ack / read_packet_with_ack over 12 first packets (acknowledgement, two negative acknowledgements, the alphabet) x 3 following packets x end of stream / reset at every offset of the first packet and the next header x one read deviation, and with a broken writing side; 8 packets outside the reader's reply enum (bodies of 0..300 bytes) between two packets it knows, one read deviation: an error, and exactly that packet consumed; a packet refused by an acknowledged form is consumed to its end as well; writer/reader header agreement for {} body lengths with a sentinel packet behind. distinct_nontrivial = distinct (stream, end position, result list) outcomes + agreeing body lengths", lens.len()),
+        rule: format!("all sequences of k<=3 packets over a 9-packet alphabet (empty body, 1-2 byte bodies, bodies of 253/254/255/256/300 bytes): for streams of <=12 (thorough: 16) bytes every partition into read() results with a Pending+wake before any subset of polls; for longer streams every placement of <= {budget} deviations (1-byte, half, all-but-one read, Pending); end of stream, and a connection reset, at every byte offset; the acknowledged forms write_packet_with_ack / read_packet_with_ack over 12 first packets (acknowledgement, two negative acknowledgements, the alphabet) x 3 following packets x end of stream / reset at every offset of the first packet and the next header x one read deviation, and with a broken writing side; for every stream of k<=2 packets up to 300 bytes one read failing with an I/O error (Interrupted, WouldBlock, TimedOut, Other) after every byte count, the read before it ending exactly there, with one further read deviation (k=1; thorough: k=2 too): an error may surface but every packet returned is the right one, consumed to its end; 8 packets outside the reader's reply enum (bodies of 0..300 bytes) between two packets it knows, one read deviation: an error, and exactly that packet consumed; a packet refused by an acknowledged form is consumed to its end as well; writer/reader header agreement for {} body lengths with a sentinel packet behind. distinct_nontrivial = distinct (stream, end position, result list) outcomes + agreeing body lengths", lens.len()),
         exhaustive: true,
         required_witnesses: vec![
             "all chunkings of a short stream explored".into(),
